@@ -12,7 +12,7 @@ import time
 from vlib import *  # noqa
 import vlib
 
-EVID = os.path.join(VERIF, "evidence")
+EVID = os.environ.get("VERIF_EVIDENCE_DIR") or os.path.join(VERIF, "evidence")
 REPLAY_DIR = os.path.join(EVID, "replay")
 
 
